@@ -472,7 +472,7 @@ Proof.
              (Hscore es ps F) (unsqueeze_last _) Hp2 Hout).
     + apply (check_input_run expf q k v None dim p Hax es ps F d qs ks); try assumption.
       apply (es_nonempty _ _ _ _ _ _ _ F).
-    + rewrite (no_mask_ops q k v None p es ps sc eq_refl). exact Hsm.
+    + rewrite (no_mask_ops expf q k v None p es ps F sc eq_refl). exact Hsm.
 Qed.
 
 (* DotProductSoftAttention: forward = attend with the dot-product score *)
